@@ -288,6 +288,8 @@ def gen(rng, n, tier="quick"):
             add("find_in_ast", [q, src], kind, tag)
             if rng.random() < 0.5:
                 add("resolve", [q, src], kind, tag)
+            if rng.random() < 0.25:
+                add(rng.choice(["emit_arg", "emit_ann_assign"]), [q, src], kind, tag)
         # rewrite: replacement taken from a second module
         rsrc, rkind = _module(rng, tier)
         rtree = st.ast_parse(rsrc)
@@ -315,7 +317,7 @@ def request(case):
     fn, a = case["fn"], case["args"]
     if fn == "annotate":
         return dumps([Sym(fn), astwire.enc_module(ast.parse(a[0]))])
-    if fn in ("find_in_ast", "resolve", "find_view"):
+    if fn in ("find_in_ast", "resolve", "find_view", "emit_arg", "emit_ann_assign"):
         return dumps([Sym(fn), list(a[0]), _plain(a[1])])
     if fn == "rewrite":
         return dumps([Sym(fn), list(a[0]), _plain(a[1]), _plain(a[2]), list(a[3])])
@@ -345,6 +347,16 @@ def run_impl(case):
         tree = st.ast_parse(src)
         pos, _, _keep = paths(tree, [])
         return dumps(outcome(lambda: au.find_in_ast(q, tree), lambda r: opt(r, lambda n: view(n, pos))))
+    if fn in ("emit_arg", "emit_ann_assign"):
+        q, src = a
+        tree = st.ast_parse(src)
+        pos, _, _keep = paths(tree, [])
+        e = Enc(pos)
+
+        def go():
+            node = au.find_in_ast(q, tree)        # None / Module: both emitters raise NotImplementedError
+            return getattr(au, fn)(node)
+        return dumps(outcome(go, e.aarg if fn == "emit_arg" else e.astmt))
     if fn == "resolve":
         q, src = a
         tree = st.ast_parse(src)
